@@ -107,13 +107,28 @@ struct Sys
 	ip::tcp::socket* tsock(Obj o) { return o == A0 ? static_cast<ip::tcp::socket*>(Acc.get()) : T[o == T0 ? 0 : 1].get(); }
 	ip::udp::socket* usock(Obj o) { return U[o == U0 ? 0 : 1].get(); }
 
+	// would the reference refuse this bind? (a bind that FAILS is offered on a socket that is already bound, too: it must change nothing)
+	bool bind_refused_by_reference(Op const& op) const
+	{
+		MSock const& s = m[op.o]; EpSpec const& e = EPS[op.ep]; ip::address a = resolve(e.a);
+		if (a.is_v4() != s.v4) return true;
+		std::string first4, first6, raddr; bool node_has = false;
+		for (auto const& ipx : { a1, a2 }) { if (ipx.empty()) continue; ip::address x = addr(ipx.c_str()); if (x.is_v4() && first4.empty()) first4 = ipx; if (x.is_v6() && first6.empty()) first6 = ipx; if (x == a) node_has = true; }
+		if (a == ip::address(ip::address_v4::any())) { if (first4.empty()) return true; raddr = first4; }
+		else if (a == ip::address(ip::address_v6::any())) { if (first6.empty()) return true; raddr = first6; }
+		else if (!node_has) return true;
+		else raddr = a.to_string();
+		if (e.port > 0 && e.port < 1024) return true;
+		auto const& reg = is_tcp(op.o) ? treg : ureg;
+		return e.port != 0 && reg.count(k(raddr, e.port)) != 0;
+	}
 	// which ops are offered in the current model state (API preconditions, DESIGN 4.6)
 	bool enabled(Op const& op) const
 	{
 		MSock const& s = m[op.o];
 		switch (op.k) {
 			case OPEN4: case OPEN6: return true;
-			case BIND: return s.open && !s.bound;
+			case BIND: return s.open && (!s.bound || (!s.connected && bind_refused_by_reference(op)));
 			case CONNECT: return !s.connected && (!s.open || s.v4) && (!s.bound || true);
 			case CLOSE: case DESTROY: return true;
 			case MOVE: return true;
